@@ -190,71 +190,118 @@ theorem inv_free {E : Nat} {p : Pool} (hi : Inv E p) {b : Block} (hb : b ∈ p.l
 theorem step_alloc (g : Geo) (p : Pool) : step g p .alloc = ((allocate g.elements p).2, .ret (allocate g.elements p).1) := rfl
 
 theorem step_free_live {g : Geo} (hg : GeoOK g) {p : Pool} (hi : Inv g.elements p) {b : Block} (hb : b ∈ p.live) :
-    step g p (.free b) = ({ p with free := b :: p.free, live := p.live.erase b }, .freed b) := by
+    step g p (.free (.blk b)) = ({ p with free := b :: p.free, live := p.live.erase b }, .freed (.blk b)) := by
   simp only [step, free_live hg hi hb]
+
+/-- the three things a step of a valid history can be: an allocation by the pool, the release of a live block, or a
+    refused request that leaves the pool as it was -/
+inductive StepKind (g : Geo) (p : Pool) (o : Op) : Prop where
+  | allocated (h : step g p o = ((allocate g.elements p).2, .ret (allocate g.elements p).1))
+  | released (b : Block) (hb : b ∈ p.live) (ho : o = .free (.blk b))
+      (h : step g p o = ({ p with free := b :: p.free, live := p.live.erase b }, .freed (.blk b)))
+  | refused (hbad : o.isBad = true) (h : step g p o = (p, .refused))
+
+theorem step_kind {g : Geo} (hg : GeoOK g) {p : Pool} (hi : Inv g.elements p) {o : Op} (hv : okOp p o) :
+    StepKind g p o := by
+  cases o with
+  | alloc => exact .allocated rfl
+  | allocN n =>
+    by_cases h : n = 1
+    · subst h; exact .allocated (by simp [step, paAllocate, paAccepts])
+    · exact .refused (by simp [Op.isBad, h]) (by simp [step, paAllocate, paAccepts, h])
+  | allocOom =>
+    cases hf : p.free with
+    | nil => exact .refused rfl (by simp [step, allocateOS, hf])
+    | cons c rest => exact .allocated (by simp [step, allocateOS, hf])
+  | free q =>
+    cases q with
+    | null => exact .refused rfl (by simp [step, free])
+    | foreign => exact .refused rfl (by simp [step, free])
+    | blk b => exact .released b hv rfl (step_free_live hg hi hv)
+
+theorem inv_step {g : Geo} (hg : GeoOK g) {p : Pool} (hi : Inv g.elements p) {o : Op} (hv : okOp p o) :
+    Inv g.elements (step g p o).1 := by
+  cases step_kind hg hi hv with
+  | allocated h => rw [h]; exact inv_allocate hg.el_pos hi
+  | released b hb _ h => rw [h]; exact inv_free hi hb
+  | refused _ h => rw [h]; exact hi
 
 theorem inv_run {g : Geo} (hg : GeoOK g) : ∀ (ops : List Op) (p : Pool), Inv g.elements p → Valid g p ops →
     Inv g.elements (run g p ops).1
   | [], p, hi, _ => hi
-  | .alloc :: os, p, hi, hv => by
+  | o :: os, p, hi, hv => by
     simp only [run]
-    exact inv_run hg os _ (by rw [step_alloc]; exact inv_allocate hg.el_pos hi) hv
-  | .free b :: os, p, hi, hv => by
-    simp only [run]
-    have hv' := hv.2
-    rw [step_free_live hg hi hv.1] at hv' ⊢
-    exact inv_run hg os _ (inv_free hi hv.1) hv'
+    exact inv_run hg os _ (inv_step hg hi hv.1) hv.2
 
-/-- valid histories never see `free` refuse -/
-theorem no_refusal {g : Geo} (hg : GeoOK g) : ∀ (ops : List Op) (p : Pool), Inv g.elements p → Valid g p ops →
-    Ev.refused ∉ (run g p ops).2
-  | [], _, _, _ => by simp [run]
-  | .alloc :: os, p, hi, hv => by
-    simp only [run, List.mem_cons, not_or]
-    exact ⟨by rw [step_alloc]; simp, no_refusal hg os _ (by rw [step_alloc]; exact inv_allocate hg.el_pos hi) hv⟩
-  | .free b :: os, p, hi, hv => by
-    simp only [run, List.mem_cons, not_or]
-    have hv' := hv.2
-    rw [step_free_live hg hi hv.1] at hv' ⊢
-    exact ⟨by simp, no_refusal hg os _ (inv_free hi hv.1) hv'⟩
+/-- a refused request leaves the pool unchanged — in every state, valid history or not -/
+theorem refused_unchanged (g : Geo) (p : Pool) (o : Op) (h : (step g p o).2 = .refused) : (step g p o).1 = p := by
+  cases o with
+  | alloc => simp [step] at h
+  | allocN n =>
+    simp only [step] at h ⊢
+    split at h <;> simp_all
+  | allocOom =>
+    simp only [step] at h ⊢
+    split at h <;> simp_all
+  | free q =>
+    simp only [step] at h ⊢
+    split at h <;> simp_all
+
+/-- in a valid history only the requests the pool refuses by design are refused: every plain `allocate`, every
+    `allocate(1)` and every release of a live block succeeds -/
+theorem refused_only_bad {g : Geo} (hg : GeoOK g) : ∀ (ops : List Op) (p : Pool), Inv g.elements p → Valid g p ops →
+    ∀ i : Nat, (run g p ops).2[i]? = some Ev.refused → ∃ o, ops[i]? = some o ∧ o.isBad = true
+  | [], _, _, _, i, h => by simp [run] at h
+  | o :: os, p, hi, hv, i, h => by
+    cases i with
+    | zero =>
+      simp only [run, List.getElem?_cons_zero, Option.some.injEq] at h
+      refine ⟨o, by simp, ?_⟩
+      cases step_kind hg hi hv.1 with
+      | allocated h' => rw [h'] at h; simp at h
+      | released b _ _ h' => rw [h'] at h; simp at h
+      | refused hbad _ => exact hbad
+    | succ i =>
+      simp only [run, List.getElem?_cons_succ] at h ⊢
+      exact refused_only_bad hg os _ (inv_step hg hi hv.1) hv.2 i h
 
 /-- a block that is live and is not given back during `ops` is not returned by any allocate of `ops` -/
 theorem live_not_returned {g : Geo} (hg : GeoOK g) {b : Block} : ∀ (ops : List Op) (p : Pool), Inv g.elements p →
-    Valid g p ops → b ∈ p.live → ∀ j : Nat, (∀ k : Nat, k < j → (run g p ops).2[k]? ≠ some (Ev.freed b)) →
+    Valid g p ops → b ∈ p.live → ∀ j : Nat, (∀ k : Nat, k < j → (run g p ops).2[k]? ≠ some (Ev.freed (.blk b))) →
     (run g p ops).2[j]? ≠ some (Ev.ret b)
   | [], _, _, _, _, j, _ => by simp [run]
-  | .alloc :: os, p, hi, hv, hb, j, hk => by
+  | o :: os, p, hi, hv, hb, j, hk => by
+    have hinv' := inv_step hg hi hv.1
     simp only [run] at hk ⊢
-    rw [step_alloc] at hk ⊢
-    have hfr := allocate_fresh' hg.el_pos hi
     cases j with
     | zero =>
-      simp only [List.getElem?_cons_zero, ne_eq, Option.some.injEq, Ev.ret.injEq]
-      intro heq; rw [heq] at hfr; exact hfr.1 hb
-    | succ j =>
-      simp only [List.getElem?_cons_succ]
-      refine live_not_returned hg os _ (inv_allocate hg.el_pos hi) hv ?_ j ?_
-      · cases hf : p.free with
-        | cons c rest => rw [allocate_pop hf]; simp [hb]
-        | nil => rw [allocate_grow hf]; simp [hb]
-      · intro k hkj
-        have := hk (k + 1) (by omega)
-        simpa using this
-  | .free c :: os, p, hi, hv, hb, j, hk => by
-    simp only [run] at hk ⊢
-    have hv' := hv.2
-    rw [step_free_live hg hi hv.1] at hk hv' ⊢
-    cases j with
-    | zero => simp
-    | succ j =>
-      simp only [List.getElem?_cons_succ]
-      have hne : c ≠ b := by
+      simp only [List.getElem?_cons_zero, ne_eq, Option.some.injEq]
+      cases step_kind hg hi hv.1 with
+      | allocated h =>
+        rw [h]
+        simp only [Ev.ret.injEq]
         intro heq
-        have := hk 0 (by omega)
-        simp [heq] at this
-      refine live_not_returned hg os _ (inv_free hi hv.1) hv' ?_ j ?_
-      · simp only
-        exact (List.mem_erase_of_ne (Ne.symm hne)).2 hb
+        have hfr := allocate_fresh' hg.el_pos hi
+        rw [heq] at hfr; exact hfr.1 hb
+      | released c _ _ h => rw [h]; simp
+      | refused _ h => rw [h]; simp
+    | succ j =>
+      simp only [List.getElem?_cons_succ]
+      have hk0 := hk 0 (by omega)
+      simp only [List.getElem?_cons_zero, ne_eq, Option.some.injEq] at hk0
+      refine live_not_returned hg os _ hinv' hv.2 ?_ j ?_
+      · cases step_kind hg hi hv.1 with
+        | allocated h =>
+          rw [h]
+          cases hf : p.free with
+          | cons c rest => rw [allocate_pop hf]; simp [hb]
+          | nil => rw [allocate_grow hf]; simp [hb]
+        | released c _ _ h =>
+          rw [h] at hk0 ⊢
+          have hne : c ≠ b := by
+            intro heq; apply hk0; rw [heq]
+          exact (List.mem_erase_of_ne (Ne.symm hne)).2 hb
+        | refused _ h => rw [h]; exact hb
       · intro k hkj
         have := hk (k + 1) (by omega)
         simpa using this
@@ -262,17 +309,11 @@ theorem live_not_returned {g : Geo} (hg : GeoOK g) {b : Block} : ∀ (ops : List
 /-- between two allocations that return the same block the block has been given back -/
 theorem reuse_after_free {g : Geo} (hg : GeoOK g) {b : Block} : ∀ (ops : List Op) (p : Pool), Inv g.elements p →
     Valid g p ops → ∀ i j : Nat, i < j → (run g p ops).2[i]? = some (Ev.ret b) → (run g p ops).2[j]? = some (Ev.ret b) →
-    ∃ k : Nat, i < k ∧ k < j ∧ (run g p ops).2[k]? = some (Ev.freed b)
+    ∃ k : Nat, i < k ∧ k < j ∧ (run g p ops).2[k]? = some (Ev.freed (.blk b))
   | [], _, _, _, i, j, _, h, _ => by simp [run] at h
   | o :: os, p, hi, hv, i, j, hij, h1, h2 => by
-    have hinv' : Inv g.elements (step g p o).1 := by
-      cases o with
-      | alloc => rw [step_alloc]; exact inv_allocate hg.el_pos hi
-      | free c => rw [step_free_live hg hi hv.1]; exact inv_free hi hv.1
-    have hv' : Valid g (step g p o).1 os := by
-      cases o with
-      | alloc => exact hv
-      | free c => exact hv.2
+    have hinv' : Inv g.elements (step g p o).1 := inv_step hg hi hv.1
+    have hv' : Valid g (step g p o).1 os := hv.2
     cases j with
     | zero => omega
     | succ j =>
@@ -286,21 +327,35 @@ theorem reuse_after_free {g : Geo} (hg : GeoOK g) {b : Block} : ∀ (ops : List 
         simp only [run, List.getElem?_cons_zero, Option.some.injEq] at h1
         -- the first step returned b, so b is live afterwards
         have hlive : b ∈ (step g p o).1.live := by
-          cases o with
-          | alloc =>
-            rw [step_alloc] at h1 ⊢
+          cases step_kind hg hi hv.1 with
+          | allocated h =>
+            rw [h] at h1 ⊢
             simp only [Ev.ret.injEq] at h1
             have := (allocate_fresh' hg.el_pos hi).2.2.2.1
             rw [h1] at this; exact this
-          | free c =>
-            rw [step_free_live hg hi hv.1] at h1
-            simp at h1
+          | released c _ _ h => rw [h] at h1; simp at h1
+          | refused _ h => rw [h] at h1; simp at h1
         -- if it were never freed before position j of the tail, it could not be returned there
         apply Classical.byContradiction
         intro hno
         refine live_not_returned hg os _ hinv' hv' hlive j ?_ h2
         intro k hkj hfreed
         exact hno ⟨k + 1, by omega, by omega, by simp only [run, List.getElem?_cons_succ]; exact hfreed⟩
+
+/-- `allocate` while `operator new` fails: with an empty free list the request is refused (the pool is not touched),
+    otherwise it is an ordinary pop that obtains no memory -/
+theorem allocateOS_false (E : Nat) (p : Pool) :
+    (p.free = [] → allocateOS E false p = .error .alloc) ∧
+    (p.free ≠ [] → allocateOS E false p = .ok (allocate E p) ∧ (allocate E p).2.chunks = p.chunks) := by
+  constructor
+  · intro h; simp [allocateOS, h]
+  · intro h
+    cases hf : p.free with
+    | nil => exact absurd hf h
+    | cons c rest => exact ⟨by simp [allocateOS, hf], by rw [allocate_pop hf]⟩
+
+theorem allocateOS_true (E : Nat) (p : Pool) : allocateOS E true p = .ok (allocate E p) := by
+  cases hf : p.free <;> simp [allocateOS, hf]
 
 /-! ### the chunk list -/
 
